@@ -294,10 +294,11 @@ PROPS["C17"] = dict(
     partial=["the theorems are about Lower.v; that the TII file written by tx3c publishes exactly the lower-cased declared names and embeds the IR that lowering produced is checked per emitted file (clauses 171-174)"],
     trusted_base=FRONT_TB + ["the TII is read from the file written by the tx3c binary built from /repo's current tree"],
     assumptions=[],
-    keep_ids=_only(lambda i: i in (1, 2, 3) or 170 <= i < 180),
+    keep_ids=_only(lambda i: i in (1, 2, 3, 5) or 170 <= i < 180),
     check_names={171: "every argument key the embedded IR requires is declared by the interface under the same spelling",
                  172: "the envelope in the TII decodes to the IR that lowering produced",
-                 173: "two declared names share a key", 174: "a declared name is required by the IR under another spelling"},
+                 173: "two declared names share a key", 174: "a declared name is required by the IR under another spelling",
+                 175: "a declared key that the body uses is not reported by find_params of the shipped IR (the server would drop the argument)", 5: "find_params of the shipped IR (implementation) = the model's walk of that IR"},
 )
 PROPS["C18"] = dict(
     level="proof", runner="C18", needs_tx3c=True, model_files=FRONT_MODEL + ["PlutusData.v", "Serde.v"], proof_files=["Front_proofs.v"], check_files=["Front_check.v"],
